@@ -252,3 +252,13 @@ package middleware
 //@   assert at call (*middleware.Chain).Next#1: depth < 32 && lastret("middleware.DebitRecursionWork") == nil && calls("middleware.DebitRecursionWork") == 1
 //@   assert at return#1: result0 == nil && result1 != nil && depth >= 32 && calls("middleware.DebitRecursionWork") == 0
 //@   assert at return#2: result0 == nil && result1 != nil
+//@
+//@ # ---- C06 / C11: a handler-cancelled reply is built from the request (SetRcode: ID, question, opcode echoed), carries
+//@ # the request's own additional section, is written exactly once and stops the chain
+//@ func (*Chain).CancelWithRcode
+//@   abstract
+//@   nosafety all pre
+//@   assert at call (*github.com/miekg/dns.Msg).SetRcode#1: arg1 == req && arg2 == rcode && req != nil
+//@   assert at call (middleware.ResponseWriter).WriteMsg#1: arg1 == lastret("(*github.com/miekg/dns.Msg).SetRcode") || arg1 != nil
+//@   assert at return: ch.count == 0 && calls("(middleware.ResponseWriter).WriteMsg") <= 1
+//@   assert at store middleware.Chain.count#2: value == 0 && calls("(middleware.ResponseWriter).WriteMsg") == 1
